@@ -517,6 +517,20 @@ def preempt(item):
             return [dig(observe(obj, v)), "-"]
         except Exception as e:  # noqa
             return ["raised", type(e).__name__]
+    shared = None
+    if item.get("shared"):
+        # one object in the hands of two threads: it is built here, undisturbed; call A and call B are both "use every accessor of
+        # that object (and hash it, compare it with an equal twin, look it up in a set)"; B runs at every line boundary of A,
+        # the object's very first accessor call included.  An immutable value can be read by any number of threads.
+        shared, twin = CLS[va](sa), CLS[va](sa)
+
+        def use(o_):
+            try:
+                ob = observe(o_, va)
+                return [dig([ob, hash(o_) == hash(twin), o_ == twin, twin == o_, o_ in set([twin]), not (o_ != twin)]), "-"]
+            except Exception as e:  # noqa
+                return ["raised", type(e).__name__]
+        call = lambda v, s: use(shared)  # noqa
     state = {"points": 0, "child": None}
     seen_b, seen_a = set(), set()
 
@@ -566,6 +580,13 @@ def preempt(item):
             os._exit(0)
     g1 = globals_digest()
     lab = lambda v, s: "text::%s" % esc(s) if v == "text" else "new:%s:%s" % (v, esc(s))  # noqa
+    if shared is not None:
+        # the reference: the same use of a freshly built object that nobody else touches
+        lab = lambda v, s: "shared:%s:%s" % (v, esc(s))  # noqa
+        ref = use(CLS[va](sa))
+        steps = [{"label": lab(va, sa), "res": ra[0], "exc": ra[1], "g": g1, "out": cap.n, "proj0": "-", "proj": "-", "ref_local": ref}]
+        steps += [{"label": lab(va, sa), "res": r, "exc": x, "g": g1, "out": 0, "proj0": "-", "proj": "-", "ref_local": ref} for r, x in sorted(seen_a | seen_b)]
+        return steps, g0, state["points"]
     steps = [{"label": lab(va, sa), "res": ra[0], "exc": ra[1], "g": g1, "out": cap.n, "proj0": "-", "proj": "-"}]
     steps += [{"label": lab(va, sa), "res": r, "exc": x, "g": g1, "out": 0, "proj0": "-", "proj": "-"} for r, x in sorted(seen_a)]
     steps += [{"label": lab(vb, sb), "res": r, "exc": x, "g": g1, "out": 0, "proj0": "-", "proj": "-"} for r, x in sorted(seen_b)]
